@@ -239,15 +239,10 @@ def circuit_is_isomorphic(circuit1, circuit2):
         return True
 
     def edge_match(e1, e2):
-        # Get the first key of the edge dict, normally only 1 key per edge unless we have 2 nodes that are connected by
-        #  2 edges
-        val1 = next(iter(e1))
-        val2 = next(iter(e2))
-
-        # Check for the control_target attribute
-        if e1[val1]["control_target"] != e2[val2]["control_target"]:
-            return False
-        return True
+        # two nodes can be connected by several edges (one per shared register): compare the attributes of all of them
+        attr1 = sorted(str(data["control_target"]) for data in e1.values())
+        attr2 = sorted(str(data["control_target"]) for data in e2.values())
+        return attr1 == attr2
 
     return is_isomorphic(
         circuit1.dag, circuit2.dag, node_match=node_match, edge_match=edge_match
@@ -297,10 +292,14 @@ def add_control_target_to_dag(circuit):
         next_node = edge[1]
         label = edge[2]
 
+        # each edge records the role (control / target / none) its register plays in the operation it leaves and in
+        # the operation it enters, so that parallel edges between the same two operations stay distinguishable
+        role_out = None
         while next_node not in circuit.node_dict["Output"]:
             op = circuit.dag.nodes[next_node]["op"]
-            control_target = _create_edge_control_target_attr(op, reg_type, register)
-            circuit.dag[node][next_node][label]["control_target"] = control_target
+            role_in = _create_edge_control_target_attr(op, reg_type, register)
+            circuit.dag[node][next_node][label]["control_target"] = (role_out, role_in)
+            role_out = role_in
 
             node = next_node
             out_edges = circuit.dag.out_edges(nbunch=node, keys=True)
@@ -308,8 +307,7 @@ def add_control_target_to_dag(circuit):
             next_node = edge[1]
             label = edge[2]
 
-        control_target = _create_edge_control_target_attr(op, reg_type, register)
-        circuit.dag[node][next_node][label]["control_target"] = control_target
+        circuit.dag[node][next_node][label]["control_target"] = (role_out, None)
 
 
 def remove_redundant_circuits(circuit_list):
